@@ -34,8 +34,10 @@ Record case := mkCase {
   cs_issuer : string;
   cs_flow : flow;
   cs_client : client;
-  cs_key : sigkey;                 (* Storage.SigningKey *)
-  cs_extra_keys : list jwk;        (* further keys Storage.KeySet publishes *)
+  cs_key : sigkey;                 (* Storage.SigningKey at the start of the request *)
+  cs_key2 : sigkey;                (* ... after a rotation inside the request *)
+  cs_rot : nat;                    (* the rotation takes effect after this many SigningKey calls; 0 = none *)
+  cs_keys : list jwk;              (* Storage.KeySet when the tokens are verified, in its order *)
   cs_user : option user;
   cs_req : request;
   cs_state : string;
@@ -83,11 +85,11 @@ Definition provider_verifier (issuer alg : string) : verifier :=
 Definition model_checks (c : case) (r : response) : checks :=
   let Hf := lookup_hash (cs_hashes c) in
   let Ef := lookup_block (cs_aes c) in
-  let keys := served_keys (cs_key c) (cs_extra_keys c) in
+  let keys := served_keys (cs_keys c) in
   let ks := KSOpenID (Some keys) in
   let cl := eff_client (cs_flow c) (cs_req c) (cs_client c) in
   let jwt_read (a : atclaims) (j : jws_desc) :=
-      match verify_access_token sym_verify (provider_verifier (cs_issuer c) (sk_alg (cs_key c)))
+      match verify_access_token sym_verify (provider_verifier (cs_issuer c) (j_alg j))
                                 ks (sym_token j) (MidOk "P" (at_to_c01 a)) (cs_vnow c) with
       | Accept _ _ => Some (a_jti a, a_sub a)
       | _ => None
@@ -122,16 +124,26 @@ Definition model_checks (c : case) (r : response) : checks :=
      | AOpaque w => let x := reader Ef w in [x; x; x]
      | AJwt _ j a => let x := jwt_read a j in [x; x; x]
      end)
-    (match r_access r with ANone => false | _ => true end)
+    (* the userinfo endpoint honours the token iff its reader does *)
+    (match r_access r with
+     | ANone => false
+     | AOpaque w => match reader Ef w with Some _ => true | None => false end
+     | AJwt _ j a => match jwt_read a j with Some _ => true | None => false end
+     end)
     (match r_access r with
      | ANone => None
      | _ => Some (token_id (cs_flow c) cl (cs_req c) (cs_ids c),
                   st_exp (cs_now0 c) (cl_at_life cl), rq_scopes (cs_req c))
      end).
 
+Definition case_key_at (c : case) : sigkey := key_at_call (cs_rot c) (cs_key c) (cs_key2 c) 1.
+Definition case_key_id (c : case) : sigkey :=
+  key_at_call (cs_rot c) (cs_key c) (cs_key2 c)
+              (id_key_call (cs_flow c) (eff_client (cs_flow c) (cs_req c) (cs_client c))).
+
 Definition model_response (c : case) : response :=
   create_token_response (lookup_hash (cs_hashes c)) (lookup_block (cs_aes c))
-    (cs_issuer c) (cs_flow c) (cs_client c) (cs_key c) (cs_user c) (cs_req c) (cs_state c)
+    (cs_issuer c) (cs_flow c) (cs_client c) (case_key_at c) (case_key_id c) (cs_user c) (cs_req c) (cs_state c)
     (cs_ids c) (cs_ent c) (cs_now0 c).
 
 Definition model (i : input) : observed :=
@@ -156,17 +168,37 @@ Definition core_userinfo_scopes : list string := ["profile"; "email"; "address";
 Definition expected_nonce (c : case) : string :=
   if is_auth_request (cs_flow c) then rq_nonce (cs_req c) else "".
 
+Definition signed_by (k : sigkey) (j : jws_desc) : bool :=
+  match j_mat j with Some m => N.eqb m (sk_mat k) | None => false end
+  && (j_alg j =s sk_alg k) && (j_kid j =s sk_kid k).
+
+(* header and signature both from one key that was the storage's signing key
+   during this request *)
 Definition signed_by_current (c : case) (j : jws_desc) : bool :=
-  match j_mat j with Some m => N.eqb m (sk_mat (cs_key c)) | None => false end
-  && (j_alg j =s sk_alg (cs_key c)) && (j_kid j =s sk_kid (cs_key c)).
+  signed_by (cs_key c) j || (negb (cs_rot c =? 0) && signed_by (cs_key2 c) j).
+
+(* the key set the storage publishes lets a verifier find key k: exactly one
+   published key carries k's kid, a signature use ("sig" or none, RFC 7517) and
+   k's key type - and it is k's public key *)
+Definition published_once (k : sigkey) (keys : list jwk) : bool :=
+  match filter (fun x => (k_id x =s sk_kid k) && ((k_use x =s "sig") || (k_use x =s ""))
+                         && kty_eqb (k_ty x) (sk_ty k)) keys with
+  | [x] => N.eqb (k_mat x) (sk_mat k)
+  | _ => false
+  end.
+
+Definition keys_consistent (c : case) (algs : list string) : bool :=
+  string_in (sk_alg (cs_key c)) (effective_algs algs) && published_once (cs_key c) (cs_keys c)
+  && ((cs_rot c =? 0)
+      || (string_in (sk_alg (cs_key2 c)) (effective_algs algs) && published_once (cs_key2 c) (cs_keys c))).
 
 (* "consistent configuration" (DESIGN App. E): the relying party allows the
-   provider's algorithm, its offset covers a negative skew and is shorter than
+   provider's algorithm(s), the storage publishes the signing key(s) findably, its offset covers a negative skew and is shorter than
    the (skewed) lifetime, it expects this request's nonce, and verifies
    within a second of issuance *)
 Definition consistent (c : case) : bool :=
   let v := cs_verifier c in
-  string_in (sk_alg (cs_key c)) (effective_algs (v_algs v))
+  keys_consistent c (v_algs v)
   && (v_issuer v =s cs_issuer c) && (v_client v =s the_client c)
   && Z.leb 0 (v_offset v) && Z.leb (- the_skew c * ns) (v_offset v)
   && Z.leb (v_offset v + 2 * ns) ((cl_id_life (cs_client c) + the_skew c) * ns)
@@ -176,7 +208,7 @@ Definition consistent (c : case) : bool :=
   && Z.eqb (v_max_age v) 0 && Z.eqb (v_max_iat v) 0.
 
 Definition at_consistent (c : case) : bool :=
-  string_in (sk_alg (cs_key c)) (effective_algs (cs_at_algs c))
+  keys_consistent c (cs_at_algs c)
   && Z.leb (cs_now0 c) (cs_vnow c) && Z.leb (cs_vnow c) (cs_now0 c + ns).
 
 Definition zabs_le (x bound : Z) : bool := Z.leb (- bound) x && Z.leb x bound.
@@ -287,13 +319,14 @@ Definition fields_ok (c : case) (r : response) (k : checks) : bool :=
   end
   && (r_token_type r =s (if r_id_as_access r then "N_A" else "Bearer")).
 
-Definition key_published (c : case) (k : checks) : bool :=
-  existsb (fun x => (k_id x =s sk_kid (cs_key c)) && N.eqb (k_mat x) (sk_mat (cs_key c))) (k_keys k).
+(* /keys publishes every key of the storage's key set *)
+Definition keys_served (c : case) (k : checks) : bool :=
+  forallb (fun x => existsb (jwk_eqb x) (k_keys k)) (cs_keys c).
 
 Definition spec (i : input) (o : observed) : bool :=
   match i, o with
   | ICase c, OResp r k =>
-      key_published c k
+      keys_served c k
       && match r_id r with Some (j, ic) => id_token_ok c r k j ic | None => true end
       && access_ok c r k
       && fields_ok c r k
